@@ -80,7 +80,6 @@ pub fn dash_path(path: &Path, dash_array: &[f32], dash_offset: f32) -> Path {
             PathOp::MoveTo(pt) => {
                 cur_pt = Some(pt);
                 start_point = Some(pt);
-                dashed.move_to(pt.x, pt.y);
 
                 // flush the previous initial segment
                 if initial_segment.len() > 0 {
@@ -89,6 +88,9 @@ pub fn dash_path(path: &Path, dash_array: &[f32], dash_offset: f32) -> Path {
                         dashed.line_to(initial_segment[i].x, initial_segment[i].y);
                     }
                 }
+                // and only then start the new subpath: whatever comes next
+                // (a dash, or a close) belongs to it, not to the flushed dash
+                dashed.move_to(pt.x, pt.y);
                 is_first_segment = true;
                 initial_segment = Vec::new();
                 first_dash = true;
